@@ -259,6 +259,24 @@ class World:
             raise Mismatch('arith/%s/inaccuracy-not-propagated' % name, {'a': a.flags, 'b': b.flags, 'z': list(C.flags(z))})
         self.adopt(z)
 
+    def op_arith_const(self, op):
+        """x (op) constant and numpy-ufunc forms: the result must carry x's inaccuracy."""
+        a = self.pick(op['i'])
+        if a is None or a.fmt[1] > 40 or not -4 <= a.fmt[2] <= a.fmt[1] + 4:
+            return
+        c = op['c']
+        name = op['name']
+        x = a.x
+        if name == 'add':
+            z = (x + c) if not op.get('numpy') else np.add(x, a.x)
+        elif name == 'sub':
+            z = (c - x) if not op.get('numpy') else np.subtract(x, a.x)
+        else:
+            z = (x * c) if not op.get('numpy') else np.multiply(x, a.x)
+        if a.flags[2] and not C.flags(z)[2]:
+            raise Mismatch('arith_const/%s/inaccuracy-not-propagated' % name, {'a': a.flags, 'z': list(C.flags(z))})
+        self.adopt(z)
+
     def op_func(self, op):
         a = self.pick(op['i'])
         if a is None or len(a.shape) != 1:
@@ -433,6 +451,8 @@ def op_strategies():
         'reset': st.fixed_dictionaries({'i': st.integers(0, 7)}),
         'resize': st.fixed_dictionaries({'i': st.integers(0, 7), 'fmt': fmt.map(list)}),
         'arith': st.fixed_dictionaries({'i': st.integers(0, 7), 'j': st.integers(0, 7), 'name': st.sampled_from(['add', 'sub', 'mul', 'truediv', 'floordiv', 'mod'])}),
+        'arith_const': st.fixed_dictionaries({'i': st.integers(0, 7), 'name': st.sampled_from(['add', 'sub', 'mul']), 'c': st.sampled_from([1, 2, -1, 0.5, 3]),
+                                              'numpy': st.booleans()}),
         'func': st.fixed_dictionaries({'i': st.integers(0, 7), 'name': st.sampled_from(['sum', 'cumsum', 'max', 'min']), 'numpy': st.booleans()}),
         'derive': st.fixed_dictionaries({'i': st.integers(0, 7), 'like': st.booleans()}),
     }
